@@ -277,8 +277,18 @@ struct ParJob : public PerEntityJob<ParJob> {
     std::mutex m;
     std::map<uint32_t, std::vector<RecOp>> log;     // thread id -> program order
     uint64_t tok_base = 0;
+    uint32_t creates = 0;                           // > 0: every visited entity only creates that many entities
     TasksCount taskCount(World&, uint32_t) const noexcept override { return TasksCount::make(tasks); }
     void operator()(Entity e, const A&, JobInvocationIndex idx) {
+        if (creates > 0) {
+            ComponentIdMask mask; mask.add(ComponentFactory::instance().registerComponent<E>());
+            for (uint32_t k = 0; k < creates; ++k) {
+                Entity n = em->create(mask, SharedComponentsInfo{});
+                std::lock_guard<std::mutex> l{m};
+                log[idx.thread_id.toInt()].push_back(RecOp{0, 0, n.value, 0});
+            }
+            return;
+        }
         size_t ord = ordinal_of->at(e.value);       // read-only while the job runs
         RecOp r{3, e.value, 0, 0};
         switch (ord % 4) {
@@ -674,6 +684,7 @@ struct Driver {
         for (auto& x : w) {
             if (x.rfind("tasks=", 0) == 0) job.tasks = static_cast<uint32_t>(std::stoul(x.substr(6)));
             if (x.rfind("tok=", 0) == 0) job.tok_base = std::stoull(x.substr(4));
+            if (x.rfind("creates=", 0) == 0) job.creates = static_cast<uint32_t>(std::stoul(x.substr(8)));
         }
         job.run(*world, JobRunMode::kParallel);
         out << "ok\n";                                   // the job's lock
